@@ -38,8 +38,8 @@ extern int mpt_mapping_add(MPT_STRUCT(array) *arr, const MPT_STRUCT(mapping) *ad
 	for (i = 0; i < len; ++i) {
 		/* binding not mergeable */
 		if (map[i].client != add->client
-		    || (map[i].dest.lay == add->dest.lay && map[i].dest.grf == add->dest.grf
-		     && map[i].dest.wld == add->dest.wld && map[i].dest.dim == add->dest.dim)) {
+		    || map[i].dest.lay != add->dest.lay || map[i].dest.grf != add->dest.grf
+		    || map[i].dest.wld != add->dest.wld || map[i].dest.dim != add->dest.dim) {
 			continue;
 		}
 		/* conflicting sources */
